@@ -146,7 +146,16 @@ func runC19(c *kernel.Ctx) {
 			cl.AdvanceNet(d)
 			c.Logf("advance %v", d)
 		case k < 17:
-			cl.NetStep()
+			if t.Chance(1, 2) {
+				cl.NetStep()
+				break
+			}
+			// the process that creates the ids is restarted (same host, same pid, possibly within the same
+			// second): its sequence counter starts again, ids must still differ from everything created before
+			message.VerifNewProcess()
+			lastID = map[int][]byte{} // order is promised per process; uniqueness across them
+			c.Logf("id state of a fresh process")
+			c.Probe("ids-across-a-process-restart")
 		case k < 18:
 			if pk := baton.Parked(); len(pk) > 0 {
 				p := pk[t.Choose(len(pk))]
